@@ -808,8 +808,9 @@ def run_case(run, spec):
                 break
         if len(spec["layers"]) > 1:
             run.count("stacked_cases")
-        run.sample({"layers": spec["layers"], "leaf_labels": leaf_spec["classes"], "announced_classes": [a["dim"] for a in A],
-                    "per_sample": [a["items"] for a in A], "bulk": [a["bulk"] for a in A]}, cap=8)
+        if leaf_spec["n"] >= 3:
+            run.sample({"layers": spec["layers"], "leaf_labels": leaf_spec["classes"], "announced_classes": [a["dim"] for a in A],
+                        "per_sample": [a["items"] for a in A], "bulk": [a["bulk"] for a in A]}, cap=8)
     except _Abort:
         pass
     finally:
